@@ -1904,10 +1904,6 @@ where
                     "No events sent within {:?}, voting to stop.",
                     runtime_config.inactive_timeout
                 );
-                if !state.has_remotes() {
-                    info!("Stopping after timeout with no remotes.");
-                    break;
-                }
                 voted = true;
                 streams.disable_timeout();
                 if stop_voter.vote() == VoteResult::Unanimous {
